@@ -405,6 +405,7 @@ class Server:
         self.async_refuse = async_refuse
         self.kexinit_override = kexinit_override
         self.versions_differ = versions_differ   # SSH-1.99 style: answer an SSH-2 client with the text error
+        self.reply_f = None                      # body of the mpint / string f of KEXDH_REPLY / GEX_REPLY (None: 32 bytes 0x07)
         self.records = []
         self.nconn = 0
 
@@ -514,7 +515,7 @@ class Server:
                 if blob is None:
                     yield ('close',)
                     return
-                rt = wire.packet_tree(wire.kexdh_reply_tree(blob, wire.MSG_GEX_REPLY))
+                rt = wire.packet_tree(wire.kexdh_reply_tree(blob, wire.MSG_GEX_REPLY, **({'f': self.reply_f} if self.reply_f is not None else {})))
                 yield ('send', wire.serialize(rt), 'gex_reply', rt)
             elif t == wire.MSG_KEXDH_INIT and kex_alg not in GEX_NAMES:
                 rec['kex_inits'] += 1
@@ -522,7 +523,7 @@ class Server:
                 if blob is None:
                     yield ('close',)
                     return
-                rt = wire.packet_tree(wire.kexdh_reply_tree(blob, wire.MSG_KEXDH_REPLY))
+                rt = wire.packet_tree(wire.kexdh_reply_tree(blob, wire.MSG_KEXDH_REPLY, **({'f': self.reply_f} if self.reply_f is not None else {})))
                 yield ('send', wire.serialize(rt), 'kexdh_reply', rt)
             else:
                 yield ('close',)
